@@ -311,13 +311,13 @@ def generate(flavour, out):
             os.makedirs(os.path.dirname(local), exist_ok=True)
             shutil.copy(full, local)
             with open(p, "a") as f:
-                f.write(f'\n#[allow(dead_code, unused)]\n#[path = "{local}"]\nmod verif_kani;\n')
+                f.write(f'\n#[allow(dead_code, unused)]\n#[path = "{local}"]\npub(crate) mod verif_kani;\n')
             continue
         # The harness file is copied into the twin so that replay can append generated tests to it.
         local = os.path.join(out, "verif_harness", flavour, rel)
         os.makedirs(os.path.dirname(local), exist_ok=True)
         shutil.copy(full, local)
-        line = f'\n#[cfg(kani)]\n#[allow(dead_code, unused)]\n#[path = "{local}"]\nmod verif_kani;\n'
+        line = f'\n#[cfg(kani)]\n#[allow(dead_code, unused)]\n#[path = "{local}"]\npub(crate) mod verif_kani;\n'
         with open(p, "a") as f:
             f.write(line)
         add(rel, "append", line)
